@@ -144,7 +144,7 @@ func ConnectWithConfig(c *ConnConfig) (*Conn, error) {
 			go func() {
 				conn.state.WaitUntil(ctx, connStatusClosed)
 				cancel()
-				conn.eventDispatcher.cond.Broadcast()
+				conn.eventDispatcher.wake()
 			}()
 			go func() {
 				conn.eventDispatcher.dispatchLoop(ctx)
@@ -356,8 +356,8 @@ func (c *Conn) OpenUpstream(ctx context.Context, sessionID string, opts ...Upstr
 		receivedAck:            sync.NewCond(&sync.RWMutex{}),
 	}
 	go func() {
-		defer c.state.cond.Broadcast()
-		defer u.state.cond.Broadcast()
+		defer c.state.wake()
+		defer u.state.wake()
 		defer cancel()
 		c.state.WaitUntil(ctx, connStatusClosed)
 	}()
@@ -375,7 +375,7 @@ func (c *Conn) OpenUpstream(ctx context.Context, sessionID string, opts ...Upstr
 			u.eventDispatcher.dispatchLoop(ctx)
 		}()
 		context.AfterFunc(ctx, func() {
-			u.eventDispatcher.cond.Broadcast()
+			u.eventDispatcher.wake()
 		})
 		var isResume bool
 		for {
@@ -513,8 +513,8 @@ func (c *Conn) OpenDownstream(ctx context.Context, filters []*message.Downstream
 		Config:     downconf,
 	}
 	go func() {
-		defer c.state.cond.Broadcast()
-		defer down.state.cond.Broadcast()
+		defer c.state.wake()
+		defer down.state.wake()
 		defer cancel()
 		c.state.WaitUntil(ctx, connStatusClosed)
 	}()
@@ -533,7 +533,7 @@ func (c *Conn) OpenDownstream(ctx context.Context, filters []*message.Downstream
 			down.eventDispatcher.dispatchLoop(ctx)
 		}()
 		context.AfterFunc(ctx, func() {
-			down.eventDispatcher.cond.Broadcast()
+			down.eventDispatcher.wake()
 		})
 
 		for {
